@@ -16,6 +16,7 @@ import DltVerif.Spec.Stats
 import DltVerif.Spec.Zts
 import DltVerif.Spec.TypeInfo
 import DltVerif.Spec.Fixed
+import DltVerif.Spec.Codec
 
 namespace Dlt.Ops
 open Dlt.Wire
@@ -90,6 +91,12 @@ def ids (w : Bool) (bs : Bytes) : String :=
     | .error e => pDltError e
   let f := Spec.idFields w bs
   model ++ " @@ spec=" ++ pIds f.storageEcu f.ecu f.app f.ctx
+
+/-- the reference decoder's verdict in the print format of a parse result -/
+def pVerdict (n : Nat) : Spec.Verdict → String
+  | .item m c => s!"OK rest={n - c} {pParsed (.item m)}"
+  | .incomplete => "INCOMPLETE"
+  | .reject => "REJECT"
 
 def pEnc (m : Message) : String :=
   if m.asBytesPanics then "PANIC" else s!"{pBytes m.asBytes} blen={m.byteLen}"
@@ -440,10 +447,15 @@ def dispatch (op : String) (args : List String) : Except String String :=
   | "IDS" => do
     let (w, bs) ← run (do let w ← bool; let b ← bytes; pure (w, b)) args
     pure (ids w bs)
-  | "ENC" => do let m ← run message args; pure (pEnc m)
+  | "ENC" => do
+    let m ← run message args
+    pure (pEnc m ++ " @@ spec=" ++ pBytes (Spec.layout m) ++ " wf=" ++ pBool m.wf)
   | "PARSE" => do
     let (w, f, bs) ← run (do let w ← bool; let f ← opt filter; let b ← bytes; pure (w, f, b)) args
-    pure (pParseResult (dltMessage bs f w))
+    let spec := match f with
+      | none => " @@ spec=" ++ pVerdict bs.length (Spec.decode w bs)
+      | some _ => ""
+    pure (pParseResult (dltMessage bs f w) ++ spec)
   | "RT" => do
     let (m, sfx) ← run (do let m ← message; let s ← bytes; pure (m, s)) args
     pure (rt m sfx ++ " @@ wf=" ++ pBool m.wf)
